@@ -5,7 +5,7 @@
    C19_poly_exact is proved at the level of the local linear system (C19_poly_exact_partial); its lifting to the
    list-based kernel loop of the model is not proved (oracle). *)
 From Coq Require Import ZArith List Bool QArith Qcanon.
-From PB Require Import C19.Model C19.FitsProofs C19.MemProofs C19.InterpProofs C19.NearestProofs C19.PolyProofs.
+From PB Require Import C19.Model C19.FitsProofs C19.MemProofs C19.InterpProofs C19.NearestProofs C19.PolyProofs C19.HistoryProofs.
 Import ListNotations.
 Open Scope Z_scope.
 
@@ -73,6 +73,27 @@ Theorem C19_memory_equiv : forall (R : Num) (Coef D : Type)
   = observe R Coef N D (drive R Coef local_fit predict x vander ncoef N windows fits skips D reldiff below update garbage false (S max_iter) O s0).
 Proof. exact memory_equiv. Qed.
 Print Assumptions C19_memory_equiv.
+
+(* HISTORIES.  One loess call does not depend on what earlier calls left in the kernel cache: for either strategy on
+   either side (c1, c2) and ANY two initial driver states that agree on data, weights, baseline, coefficients and
+   history but carry arbitrary (stale, partially filled, foreign) kernel caches, the observable results coincide --
+   because the cached strategy refills the cache in its first iteration (`elif i == 0`).  The translator obligation
+   C19_driver_stateless (props/C19_state.v) shows the driver hands nothing else from one call to the next, so the
+   strategies agree after every sequence of earlier loess calls on the same object. *)
+Theorem C19_history_independent : forall (R : Num) (Coef D : Type)
+    (local_fit : list (list (T R)) -> list (T R) -> Coef) (predict : list (T R) -> Coef -> T R)
+    (reldiff : list (T R) -> list (T R) -> D) (below : D -> bool)
+    (update : list (T R) -> list (T R) -> list (T R) -> list (T R) * list (T R)) (garbage : nat -> Z -> T R)
+    (xraw x : list (T R)) (vander : list (list (T R))) (ncoef : nat) (N tp : Z) (delta : T R)
+    (c1 c2 : bool) (a b : dstate R Coef D) (max_iter : nat),
+  1 <= N -> 1 <= tp <= N ->
+  d_y _ _ _ a = d_y _ _ _ b -> d_w _ _ _ a = d_w _ _ _ b -> d_base _ _ _ a = d_base _ _ _ b ->
+  d_coefs _ _ _ a = d_coefs _ _ _ b -> d_hist _ _ _ a = d_hist _ _ _ b ->
+  let '(windows, fits, skips) := determine_fits R xraw N tp delta in
+  observe R Coef N D (drive R Coef local_fit predict x vander ncoef N windows fits skips D reldiff below update garbage c1 (S max_iter) O a)
+  = observe R Coef N D (drive R Coef local_fit predict x vander ncoef N windows fits skips D reldiff below update garbage c2 (S max_iter) O b).
+Proof. exact history_independent_fits. Qed.
+Print Assumptions C19_history_independent.
 
 (* the same for any index lists without repeated fitted indices (what the equivalence really needs) *)
 Theorem C19_memory_equiv_nodup : forall (R : Num) (Coef : Type)
